@@ -1,0 +1,57 @@
+//! Observation hooks for external runtime monitors.
+//!
+//! Compiled only with the cargo feature `verif` (off by default).  The hooks are read-only:
+//! an observer registered on the current thread is called synchronously with borrowed views of
+//! the dispatcher's state, under the borrows the dispatcher itself holds.
+
+use crate::meet_pass::disp_structs::{DispAuth, TrainIdx};
+use crate::meet_pass::train_disp::TrainDisp;
+use std::cell::RefCell;
+
+/// Point of [crate::meet_pass::dispatch::run_dispatch] at which a snapshot is taken
+#[derive(Clone, Copy, Debug, PartialEq, Eq)]
+pub enum DispatchPhase {
+    /// after a train was advanced and the free paths of the other trains were updated
+    AfterAdvance,
+    /// after a train was rewound to its last fixed position and free paths were updated
+    AfterRewind,
+    /// at the end of an iteration of the outer dispatch loop (one selected train handled)
+    EndOfIteration,
+    /// once, immediately before the timed paths are returned
+    Final,
+}
+
+/// Borrowed view of the dispatcher's state
+pub struct DispatchSnapshot<'a> {
+    pub phase: DispatchPhase,
+    /// number of completed iterations of the outer dispatch loop
+    pub iteration: usize,
+    /// train handled in this iteration (`None` for [DispatchPhase::Final])
+    pub train_idx_moved: TrainIdx,
+    pub link_disp_auths: &'a [Vec<DispAuth>],
+    pub links_blocked: &'a [TrainIdx],
+    /// index 0 is the dummy train
+    pub train_disps: &'a [TrainDisp],
+}
+
+pub type DispatchObserver = Box<dyn FnMut(&DispatchSnapshot)>;
+
+thread_local! {
+    static DISPATCH_OBSERVER: RefCell<Option<DispatchObserver>> = const { RefCell::new(None) };
+}
+
+/// Installs (or removes, with `None`) the dispatch observer of the current thread and returns
+/// the previous one
+pub fn set_dispatch_observer(observer: Option<DispatchObserver>) -> Option<DispatchObserver> {
+    DISPATCH_OBSERVER.with(|cell| cell.replace(observer))
+}
+
+pub(crate) fn emit_dispatch(snapshot: &DispatchSnapshot) {
+    DISPATCH_OBSERVER.with(|cell| {
+        if let Ok(mut slot) = cell.try_borrow_mut() {
+            if let Some(observer) = slot.as_mut() {
+                observer(snapshot);
+            }
+        }
+    });
+}
